@@ -1039,6 +1039,27 @@ theorem closure_delete_slicer (g : RefG) (sheet ridS slicerPart wb ridW cachePar
     (closure_delete_slicer_part g sheet ridS slicerPart emptied h honce honlyS hnouseS)
     (fun hl r hm => honlyC hl r (hr r hm)) (fun hl u hm => hnouseC hl u (hu u hm))
 
+theorem closed_dropShape (vml : Str) (ids : List Str) : ∀ (g : RefG), closedG g →
+    closedG (g.dropShape vml ids) ∧ (g.dropShape vml ids).parts = g.parts ∧ (g.dropShape vml ids).rels = g.rels := by
+  induction ids with
+  | nil => exact fun g h => ⟨h, rfl, rfl⟩
+  | cons i rest ih =>
+    intro g h
+    obtain ⟨a, b, c⟩ := ih (g.dropUse vml i) (closed_dropUse g vml i h)
+    exact ⟨a, b, c⟩
+
+/-- `closure_delete_vml_object`: DeleteComment and DeleteFormControl remove no part, no
+relationship and no `legacyDrawing` reference (regenerated fact); they cut at most one shape out of
+the VML part, whatever relationship ids that shape names. Parts and relationships are unchanged and
+the closure holds afterwards, without any hypothesis on the shape. -/
+theorem closure_delete_vml_object (g : RefG) (vml : Str) (ids : List Str) (found : Bool) (h : closedG g) :
+    Facts.C05.deleteVmlKeepsParts = true ∧ closedG (g.deleteVmlObject vml ids found) ∧
+      (g.deleteVmlObject vml ids found).parts = g.parts ∧ (g.deleteVmlObject vml ids found).rels = g.rels := by
+  refine ⟨by decide, ?_⟩
+  cases found with
+  | false => exact ⟨h, rfl, rfl⟩
+  | true => exact closed_dropShape vml ids g h
+
 /-! ## element order inside worksheets and chart sheets -/
 
 theorem stepOk_of_ltB {schema : List String} {a b : String} (h : ltB schema a b = true) : stepOk schema a b = true := by
